@@ -312,6 +312,7 @@ func (node *Insert) walkSubtree(visit Visit) error {
 		node.Columns,
 		node.Rows,
 		node.OnDup,
+		node.Returning,
 	)
 }
 
@@ -339,6 +340,7 @@ func (node *Update) walkSubtree(visit Visit) error {
 		node.Where,
 		node.OrderBy,
 		node.Limit,
+		node.Returning,
 	)
 }
 
@@ -370,6 +372,7 @@ func (node *Delete) walkSubtree(visit Visit) error {
 		node.Where,
 		node.OrderBy,
 		node.Limit,
+		node.Returning,
 	)
 }
 
